@@ -1230,7 +1230,8 @@ void KMeans(matrix* m,
   UIVectorResize(cluster_labels, m->row);
   
   it = 0;
-  while(shouldStop(centroids, oldcentroids, it, 100) == 0)
+  /* oldcentroids starts as zeros: start centroids within EPSILON of the origin must not stop the loop before the first sweep */
+  while(it == 0 || shouldStop(centroids, oldcentroids, it, 100) == 0)
   {
     #ifdef DEBUG
     clock_t t = clock();
